@@ -48,6 +48,14 @@ SCHEMA_POSITIONS = [
     ["properties", "o", "dependencies", "deep"],
     ["definitions", "E", "properties", "x", "additionalProperties"],
     ["allOf", 0, "not", "anyOf", 0],
+    ["properties", "ts", "properties", "a"],
+    ["properties", "ts", "items"],
+    ["properties", "to", "items"],
+    ["properties", "to", "contains"],
+    ["properties", "tn", "properties", "a"],
+    ["properties", "tn", "dependencies", "k"],
+    ["properties", "ta", "patternProperties", "^x"],
+    ["properties", "ta", "propertyNames"],
 ]
 
 
@@ -63,6 +71,10 @@ def base_doc():
             "s": {"items": {"type": "integer"}, "additionalItems": {"type": "null"}},
             "t": {"additionalItems": {"type": "null"}, "contains": {"type": "integer"}},
             "u": {"type": "array", "items": [{"type": "integer"}]},
+            "ts": {"type": "string", "properties": {"a": {"type": "integer"}}, "items": {"type": "integer"}},
+            "to": {"type": "object", "title": "TO", "items": {"type": "integer"}, "contains": {"type": "integer"}},
+            "tn": {"type": ["string", "null"], "properties": {"a": {"type": "integer"}}, "dependencies": {"k": {"minProperties": 1}}},
+            "ta": {"type": "array", "patternProperties": {"^x": {"type": "integer"}}, "propertyNames": {"maxLength": 3}},
         },
         "patternProperties": {"^x": {"type": "integer"}},
         "additionalProperties": {"type": "integer"},
